@@ -29,6 +29,10 @@ def normalise(sc):
     sc.setdefault("prio", [0] * K)
     sc.setdefault("syscap", INF)
     sc["nodes"] = [default_node(**nd) for nd in sc["nodes"]]
+    if any(nd["ccm"] for nd in sc["nodes"]):
+        for nd in sc["nodes"]:
+            if not nd["ccm"]:  # create_network needs a matrix for every node: identity
+                nd["ccm"] = [[(DEN if a == b else 0) for b in range(K)] for a in range(K)]
     for nd in sc["nodes"]:
         if not nd["ren"]:
             nd["ren"] = [False] * K
@@ -243,10 +247,7 @@ def build(sc, ctx):
     if any(nd["ccm"] for nd in sc["nodes"]):
         ccms = []
         for nd in sc["nodes"]:
-            if nd["ccm"]:
-                ccms.append({names[a]: {names[b]: nd["ccm"][a][b] / DEN for b in range(K)} for a in range(K)})
-            else:
-                ccms.append({names[a]: {names[b]: (1.0 if a == b else 0.0) for b in range(K)} for a in range(K)})
+            ccms.append({names[a]: {names[b]: nd["ccm"][a][b] / DEN for b in range(K)} for a in range(K)})
         kw["class_change_matrices"] = ccms
     if any(sc["cct"][a][b] for a in range(K) for b in range(K)):
         kw["class_change_time_distributions"] = {
